@@ -287,6 +287,26 @@ def guard_eval(repo: Repo) -> RuleRun:
         edges = None if n_edges is None else [None] * n_edges
         res = _try(Evaluator(repo=repo, module=finit.module, call_hook=face_hook), finit, [face, [Sym(f"p{i}") for i in range(4)], edges])
         expect(finit, res, bad, f"edges={'None' if edges is None else 'list of ' + str(n_edges)}", ("FaceCreationError",))
+    # axis of Operation.chop / Block.chop: the chop store is created by the constructor - a store that accepts any key (a
+    # defaultdict) turns an out-of-range axis into a chop that is silently never applied
+    oinit = repo.func("construct.operations.operation.Operation.__init__")
+    ochop = repo.func("construct.operations.operation.Operation.chop")
+
+    def op_hook(ev, call, name):
+        if (name or "").split(".")[-1] in ("Line", "Chop"):
+            return Obj((name or "x").split(".")[-1].lower())
+        return NO_MATCH
+
+    for axis, bad in ((-1, True), (0, False), (2, False), (3, True), (7, True)):
+        op = Obj("op", cls=repo.cls("construct.operations.operation.Operation"))
+        ev_o = Evaluator(repo=repo, module=oinit.module, call_hook=op_hook)
+        res0 = _try(ev_o, oinit, [op, Sym("bottom_face"), Sym("top_face")])
+        r.require(_raised(res0) is None and op.has("chops"), "Operation.__init__ does not create the chop store on the model")
+        res = _try(Evaluator(repo=repo, module=ochop.module, call_hook=op_hook), ochop, [op, axis], {"count": 5})
+        expect(ochop, res, bad, f"Operation.chop(axis={axis})", ("KeyError", "ValueError", "IndexError", "RuntimeError"))
+        if not bad:
+            store = op.get("chops")
+            r.check(isinstance(store, dict) and len(store.get(axis, [])) == 1 and sum(len(v) for v in store.values()) == 1, ochop, f"chop stored on axis {axis} only", f"Operation.chop({axis}) leaves the store as {store!r}", key=f"Operation.chop(axis={axis}):stored")
     # corner indexes of the projection API: Python's negative indexes must not wrap around to another corner
     pc = repo.func("construct.operations.operation.Operation.project_corner")
     for v, bad in ((-1, True), (0, False), (3, False), (4, False), (7, False), (8, True), (-8, True)):
@@ -389,7 +409,7 @@ def guard_eval(repo: Repo) -> RuleRun:
             return (1, 1)
         return NO_MATCH
 
-    for ratio, bad in ((0, True), (-0.5, True), (0.5, False), (1, False), (1.5, True)):
+    for ratio, bad in ((0, True), (-0.5, True), (0.5, False), (1, False), (1.5, True), (float("nan"), True), (float("inf"), True)):
         gr = Obj("grading", cls=repo.cls("grading.grading.Grading"))
         gr.set("length", 1)
         gr.set("specification", [])
